@@ -275,10 +275,20 @@ def _check_template(ctx, m, d, whole, xml):
         if "NOVAL" in (beg, end):
             return
         es = [m.omml_to_latex(s) for s, _ in ops.get("e", [])]
-        ctx.require(whole.startswith(beg) and whole.endswith(end), "delimiter-form", out=whole, xml=xml)
-        p = len(beg)
+        ctx.require(whole.startswith(beg) and whole.endswith(end) and len(whole) >= len(beg) + len(end),
+                    "delimiter-form", out=whole, xml=xml)
+        # exactly the declared delimiters (an explicitly empty m:val = no delimiter on that side): between
+        # them the operands in order, the first directly after the opening and the last directly before
+        # the closing delimiter; what separates two operands is the converter's choice
+        rest = whole[len(beg):len(whole) - len(end)]
+        if not es:
+            ctx.require(rest == "", "delimiter-form", out=whole, xml=xml, why="text between the delimiters of an empty m:d")
+            return
+        ctx.require(rest.startswith(es[0]) and rest.endswith(es[-1]), "delimiter-form", out=whole, xml=xml,
+                    why="operands not directly inside the declared delimiters")
+        p = 0
         for e in es:
-            q = whole.find(e, p)
+            q = rest.find(e, p)
             ctx.require(q >= 0, "delimiter-operand-missing", out=whole, xml=xml)
             p = q + len(e)
         return
@@ -406,6 +416,94 @@ def k2_symbolic_tags(ctx):
         ctx.require(out.count(toks[i]) <= 1, "run-text-duplicated", token=toks[i], **info)
 
 
+# ---------------------------------------------------------------------------------------
+# K3: determinism through the real carrier - formulas of a SEQUENCE of generated DOCX files read
+# through read_docx in one process: every document reports the conversion of its own trees
+# ---------------------------------------------------------------------------------------
+_W = "http://schemas.openxmlformats.org/wordprocessingml/2006/main"
+_MM = "http://schemas.openxmlformats.org/officeDocument/2006/math"
+
+
+def _r(t):
+    return "<m:r><m:t>%s</m:t></m:r>" % t
+
+
+# formula shapes; the token is filled in per occurrence so that every formula of a run is distinct
+_K3_SHAPES = [
+    lambda t: "<m:f><m:num>%s</m:num><m:den>%s</m:den></m:f>" % (_r(t), _r("5")),
+    lambda t: "<m:sSub><m:e>%s</m:e><m:sub>%s</m:sub></m:sSub>" % (_r(t), _r("2")),
+    lambda t: "<m:rad><m:deg/><m:e>%s</m:e></m:rad>" % _r(t),
+    lambda t: "<m:d><m:dPr><m:begChr m:val=\"[\"/><m:endChr m:val=\"\"/></m:dPr><m:e>%s</m:e></m:d>" % _r(t),
+]
+
+
+def _docx_bytes(formulas):
+    import io
+    import zipfile
+    body = "".join('<w:p><w:r><w:t>T%d</w:t></w:r><m:oMath>%s</m:oMath></w:p>' % (i, f) for i, f in enumerate(formulas))
+    doc = ('<?xml version="1.0" encoding="UTF-8" standalone="yes"?><w:document xmlns:w="%s" xmlns:m="%s">'
+           '<w:body>%s</w:body></w:document>' % (_W, _MM, body))
+    b = io.BytesIO()
+    with zipfile.ZipFile(b, "w") as z:
+        z.writestr("[Content_Types].xml",
+                   '<?xml version="1.0" encoding="UTF-8"?><Types xmlns="http://schemas.openxmlformats.org/package/'
+                   '2006/content-types"><Default Extension="rels" ContentType="application/vnd.openxmlformats-package.'
+                   'relationships+xml"/><Default Extension="xml" ContentType="application/xml"/><Override PartName='
+                   '"/word/document.xml" ContentType="application/vnd.openxmlformats-officedocument.wordprocessingml.'
+                   'document.main+xml"/></Types>')
+        z.writestr("_rels/.rels",
+                   '<?xml version="1.0" encoding="UTF-8"?><Relationships xmlns="http://schemas.openxmlformats.org/'
+                   'package/2006/relationships"><Relationship Id="rId1" Type="http://schemas.openxmlformats.org/'
+                   'officeDocument/2006/relationships/officeDocument" Target="word/document.xml"/></Relationships>')
+        z.writestr("word/document.xml", doc)
+    return b.getvalue()
+
+
+def k3_docx_sequence(ctx):
+    """N documents, each with 1..2 formulas of solver-chosen shapes over distinct tokens, read one after the
+    other (and the first one again at the end): the formulas a document reports are the conversions of ITS
+    trees (reference: omml_to_latex on a fresh parse of the same XML), whatever was read before"""
+    import gc
+    import io
+    from sharepoint2text.parsing.extractors.ms_modern.docx_extractor import read_docx
+    m = _mod()
+    n_docs = ctx.params.get("docs", 3)
+    docs = []
+    tok = 0
+    for d in range(n_docs):
+        # quick tier: only the first document varies its number of formulas
+        n_f = 1 + (ctx.choice(f"doc{d}_formulas_minus_1", 2) if (d == 0 or ctx.params.get("all_vary")) else 0)
+        fs = []
+        for k in range(n_f):
+            if d == 0 and k == 0 and "first_shape" in ctx.params:
+                shape = ctx.params["first_shape"]
+            else:
+                shape = ctx.choice(f"doc{d}_f{k}_shape", len(_K3_SHAPES))
+            fs.append(_K3_SHAPES[shape]("Q%d" % tok))
+            tok += 1
+        docs.append(fs)
+    order = list(range(n_docs)) + [0]
+    for pos, d in enumerate(order):
+        fs = docs[d]
+        expected = [m.omml_to_latex(ET.fromstring('<m:oMath xmlns:m="%s">%s</m:oMath>' % (_MM, f))) for f in fs]
+        if ctx.perturb == "expect_first_documents_formulas":
+            expected = [m.omml_to_latex(ET.fromstring('<m:oMath xmlns:m="%s">%s</m:oMath>' % (_MM, f)))
+                        for f in docs[0]]
+        try:
+            res = list(read_docx(io.BytesIO(_docx_bytes(fs))))
+        except Exception as e:
+            ctx.fail("read_docx-raised", exc=type(e).__name__, msg=str(e)[:80], position=pos)
+            return
+        got = [f.latex for f in res[0].formulas]
+        text = res[0].get_full_text()
+        del res
+        gc.collect()
+        ctx.require(got == expected, "formula-of-another-document-reported", position=pos, document=d,
+                    got=got, expected=expected)
+        for e in expected:
+            ctx.require(e in text, "formula-missing-from-full-text", position=pos, document=d, latex=e, text=text[:120])
+
+
 def _targets():
     m = _mod()
     return [m.omml_to_latex, m.convert_greek_and_symbols]
@@ -445,6 +543,21 @@ KERNELS = [
            stubs=["ET.Element -> pure-python stand-in with find/findall/get/iter (tags may be symbolic)"],
            timeout={"quick": 280, "thorough": 2400}),
 ]
+
+KERNELS.append(
+    Kernel("K3", "formulas through the DOCX carrier: a sequence of documents read in one process, each reports its own",
+           k3_docx_sequence, targets=lambda: _targets() + [__import__(
+               "sharepoint2text.parsing.extractors.ms_modern.docx_extractor", fromlist=["x"]).read_docx],
+           strength="structure",
+           parts=lambda tier: [{"docs": 3, "first_shape": k, **({} if tier == "quick" else {"all_vary": True})}
+                               for k in range(len(_K3_SHAPES))],
+           timeout={"quick": 200, "thorough": 1500},
+           perturb=["expect_first_documents_formulas"],
+           choices=["formulas per document (1..2)", "shape of every formula (fraction, subscript, radical, delimiter "
+                    "with an explicitly empty closing character)"],
+           assumptions=["reference = omml_to_latex on a fresh parse of the same formula XML (K1/K2 judge the converter "
+                        "itself); documents are generated WordprocessingML packages"],
+           outside=["history effects that need more than 3 documents or other carriers (pptx) - see C15/C06"]))
 
 META = {
     "level_text": "The real omml_to_latex is executed on every OMML tree of a bounded grammar (depth 2, thorough 3; all 11 "
